@@ -14,7 +14,7 @@ namespace Zeno.Model.RateProg
 open Zeno Zeno.Model.RateLimiter
 
 abbrev P : Progs := Zeno.Gen.RateProg.facts
-abbrev G : Facts := Zeno.Gen.RateLimiter.facts
+abbrev G : Facts := Facts.modelled Zeno.Gen.RateLimiter.facts
 
 theorem refill_translated (b : TB) (now : Rat) : runRefill P b now = some (refill b now) := by
   unfold refill TB.base
@@ -31,14 +31,14 @@ theorem wait_translated (b : TB) (now : Rat) : runWaitAttempt P b now = some (tr
   unfold runWaitAttempt tryAcquire
   rw [runRefill_eq]
   by_cases h : 1 ≤ (refill b now).tokens <;>
-  simp [runMethod, P, G, Zeno.Gen.RateProg.facts, Zeno.Gen.RateLimiter.facts, ABlock.exec, AStmt.exec, RExp.eval, CExp.eval,
+  simp [runMethod, P, G, Facts.modelled, Zeno.Gen.RateProg.facts, Zeno.Gen.RateLimiter.facts, ABlock.exec, AStmt.exec, RExp.eval, CExp.eval,
     getF, setF, setLocal, Cmp.eval, h]
 
 theorem success_translated (b : TB) (now : Rat) : runOnSuccess P b now = some (onSuccess G b now) := by
   unfold runOnSuccess onSuccess
   by_cases h1 : b.pen < now <;> by_cases h2 : b.rate < b.ideal <;>
   by_cases h3 : b.ideal < b.rate + (b.ideal - b.rate) * (1/10) <;> by_cases h4 : 0 < b.fails <;>
-  simp [runMethod, P, G, Zeno.Gen.RateProg.facts, Zeno.Gen.RateLimiter.facts, ABlock.exec, AStmt.exec, RExp.eval, CExp.eval,
+  simp [runMethod, P, G, Facts.modelled, Zeno.Gen.RateProg.facts, Zeno.Gen.RateLimiter.facts, ABlock.exec, AStmt.exec, RExp.eval, CExp.eval,
     IExp.eval, getF, setF, getI, setI, setLocal, Cmp.eval, h1, h2, h3, h4] <;>
   first
     | omega
@@ -75,19 +75,19 @@ theorem penalty_prog (n : Nat) :
       = ((min ((5000000000 : Int) * 2 ^ n) 30000000000 : Int) : Rat) := by
     rw [← min_cast]; simp
   rw [e, truncNs_int]
-  · simp [penalty, G, Zeno.Gen.RateLimiter.facts]
+  · simp [penalty, G, Facts.modelled, Zeno.Gen.RateLimiter.facts]
   · have : (0 : Int) ≤ 2 ^ n := Int.pow_nonneg (by omega)
     omega
   · omega
 
 
 theorem isPenalised_G (st : Nat) : isPenalised G st = decide (st = 429 ∨ st = 403 ∨ st = 408 ∨ st = 425) := by
-  simp [isPenalised, G, Zeno.Gen.RateLimiter.facts]
+  simp [isPenalised, G, Facts.modelled, Zeno.Gen.RateLimiter.facts]
 theorem isServerError_G (st : Nat) : isServerError G st = decide (500 ≤ st) := by
-  simp [isServerError, G, Zeno.Gen.RateLimiter.facts, Cmp.eval]
+  simp [isServerError, G, Facts.modelled, Zeno.Gen.RateLimiter.facts, Cmp.eval]
   rfl
 theorem rateFloor_G (b : TB) : rateFloor G b = min (1 / 2) b.ideal := by
-  simp [rateFloor, G, Zeno.Gen.RateLimiter.facts]
+  simp [rateFloor, G, Facts.modelled, Zeno.Gen.RateLimiter.facts]
 
 theorem failure_penalised (b : TB) (now : Rat) (st : Nat) (h : st = 429 ∨ st = 403 ∨ st = 408 ∨ st = 425) :
     runOnFailure P b now st = some (onFailure G b now st) := by
